@@ -928,7 +928,7 @@ func (s *machine) actBulk(t *rapid.T) {
 	}
 	s.needClean(t)
 	s.bulkDone = true
-	sizes := []int{30, 120}
+	sizes := []int{30, 120, 2300} // a purge of more than 1000 records runs in several transactions
 	if stats.Thorough() {
 		sizes = []int{120, 1100, 1500, 2300}
 	}
